@@ -151,13 +151,17 @@ def run_case(c):
             res.sample({'tuples': 'all increasing %d-tuples over %r for RFI x MEF' % (k, vals)})
         else:
             bad = [([1.0, 2.0], [1.0, 2.0]), ([1.0], [1.0]), ([], []), ([1.0, 2.0, 3.0], [1.0, 2.0]), ([1.0, 2.0], [1.0, 2.0, 3.0]),
-                   ([1.0, 2.0, 3.0, 4.0], [1.0, 2.0, 3.0])]
+                   ([1.0, 2.0, 3.0, 4.0], [1.0, 2.0, 3.0]), ([1.0, 2.0, 3.0], [1.0, 2.0, 3.0, 4.0]),
+                   ([3.0, 9.0, 27.0, 81.0, 243.0, 729.0], [10.0, 30.0, 90.0, 270.0, 810.0, 2430.0, 7290.0, 21870.0]),
+                   ([3.0, 9.0, 27.0, 81.0, 243.0, 729.0, 2000.0, 6000.0], [10.0, 30.0, 90.0, 270.0, 810.0, 2430.0]),
+                   ([5.0, 50.0, 500.0], [10.0, 100.0, 1000.0, 10000.0, 100000.0])]
             for rfi, mef in bad:
-                try:
-                    fitf(np.array(rfi), np.array(mef))
-                except Exception:
-                    res.ok('refused', True)
-                    continue
-                res.violation('not-refused', 'fit(rfi=%r, mef=%r) did not raise' % (rfi, mef), dict(c))
+                for wrap in (np.array, list):
+                    try:
+                        fitf(wrap(rfi), wrap(mef))
+                    except Exception:
+                        res.ok('refused', True)
+                        continue
+                    res.violation('not-refused', 'fit(rfi=%r, mef=%r) as %s did not raise' % (rfi, mef, wrap.__name__), dict(c))
             res.sample({'refusals': bad})
     return res
